@@ -32,8 +32,9 @@ theorem rv_unpack_pack (fmt : Fmt) (f : Fields) (h : InRange fmt f) : unpack fmt
     subst h3 h6 h7
     have hu := toU32_mod4096 imm
     have hs := sext12_mod imm ⟨h8, h9⟩
+    simp only [pack, unpack]
     generalize toU32 imm = u at hu ⊢
-    simp only [pack, unpack, packI_norm _ _ _ _ _ h1 h2 h4 h5, fOpc, fF3, fRd, fRs1, immI, Fields.mk.injEq]
+    simp only [packI_norm _ _ _ _ _ h1 h2 h4 h5, fOpc, fF3, fRd, fRs1, immI, Fields.mk.injEq]
     obtain ⟨x1, x2, x3, x4, x5, _⟩ := xI (u % 4096) _ _ _ _ (by omega) h1 h2 h4 h5 _ rfl
     refine ⟨x1, x3, trivial, x2, x4, trivial, trivial, ?_⟩
     rw [x5, show u % 4096 % 4096 = u % 4096 by omega, hu]; exact hs
@@ -41,8 +42,9 @@ theorem rv_unpack_pack (fmt : Fmt) (f : Fields) (h : InRange fmt f) : unpack fmt
     subst h3 h4 h7
     have hu := toU32_mod4096 imm
     have hs := sext12_mod imm ⟨h8, h9⟩
+    simp only [pack, unpack]
     generalize toU32 imm = u at hu ⊢
-    simp only [pack, unpack, packS_norm _ _ _ _ _ h1 h2 h5 h6, fOpc, fF3, fRs1, fRs2, immS, Fields.mk.injEq]
+    simp only [packS_norm _ _ _ _ _ h1 h2 h5 h6, fOpc, fF3, fRs1, fRs2, immS, Fields.mk.injEq]
     obtain ⟨x1, x2, x3, x4, x5, x6, _⟩ := xS (u % 4096 / 32) (u % 32) _ _ _ _ (by omega) (by omega) h1 h2 h5 h6 _ rfl
     refine ⟨x1, x2, trivial, trivial, x3, x4, trivial, ?_⟩
     rw [x5, x6, decompS, hu]; exact hs
@@ -51,8 +53,9 @@ theorem rv_unpack_pack (fmt : Fmt) (f : Fields) (h : InRange fmt f) : unpack fmt
     have hu := toU32_mod8192 imm
     have hs := sext13_mod imm ⟨h8, by omega⟩
     have he : toU32 imm % 2 = 0 := by unfold toU32; omega
+    simp only [pack, unpack]
     generalize toU32 imm = u at hu he ⊢
-    simp only [pack, unpack, packB_norm _ _ _ _ _ h1 h2 h5 h6, fOpc, fF3, fRs1, fRs2, immB, Fields.mk.injEq]
+    simp only [packB_norm _ _ _ _ _ h1 h2 h5 h6, fOpc, fF3, fRs1, fRs2, immB, Fields.mk.injEq]
     obtain ⟨x1, x2, x3, x4, x5, x6, x7, x8, _⟩ :=
       xB (u / 4096 % 2) (u / 32 % 64) (u / 2 % 16) (u / 2048 % 2) _ _ _ _ (by omega) (by omega) (by omega) (by omega) h1 h2 h5 h6 _ rfl
     refine ⟨x1, x2, trivial, trivial, x3, x4, trivial, ?_⟩
@@ -60,8 +63,9 @@ theorem rv_unpack_pack (fmt : Fmt) (f : Fields) (h : InRange fmt f) : unpack fmt
   · obtain ⟨h1, h2, h3, h4, h5, h6, h7, h8, h9⟩ := h
     subst h2 h3 h5 h6 h7
     have hu : toU32 imm % 1048576 = imm.toNat := by unfold toU32; omega
+    simp only [pack, unpack]
     generalize toU32 imm = u at hu ⊢
-    simp only [pack, unpack, packU_norm _ _ _ h1 h4, fOpc, fRd, immU, Fields.mk.injEq]
+    simp only [packU_norm _ _ _ h1 h4, fOpc, fRd, immU, Fields.mk.injEq]
     obtain ⟨x1, x2, x3, _⟩ := xU (u % 1048576) _ _ (by omega) h1 h4 _ rfl
     refine ⟨x1, trivial, trivial, x2, trivial, trivial, trivial, ?_⟩
     rw [x3, hu]; omega
@@ -70,8 +74,9 @@ theorem rv_unpack_pack (fmt : Fmt) (f : Fields) (h : InRange fmt f) : unpack fmt
     have hu := toU32_mod2m imm
     have hs := sext21_mod imm ⟨h8, by omega⟩
     have he : toU32 imm % 2 = 0 := by unfold toU32; omega
+    simp only [pack, unpack]
     generalize toU32 imm = u at hu he ⊢
-    simp only [pack, unpack, packJ_norm _ _ _ h1 h4, fOpc, fRd, immJ, Fields.mk.injEq]
+    simp only [packJ_norm _ _ _ h1 h4, fOpc, fRd, immJ, Fields.mk.injEq]
     obtain ⟨x1, x2, x3, x4, x5, x6, _⟩ :=
       xJ (u / 1048576 % 2) (u / 2 % 1024) (u / 2048 % 2) (u / 4096 % 256) _ _ (by omega) (by omega) (by omega) (by omega) h1 h4 _ rfl
     refine ⟨x1, trivial, trivial, x2, trivial, trivial, trivial, ?_⟩
